@@ -2,7 +2,7 @@
  * @props C20 C03
  * @tier quick
  * @functions ZSTD_seekable_loadSeekTable ZSTD_seekable_initBuff ZSTD_seekable_initAdvanced ZSTD_seekable_read_buff ZSTD_seekable_seek_buff ZSTD_seekable_getNumFrames ZSTD_seekable_getFrameCompressedOffset ZSTD_seekable_getFrameDecompressedOffset
- * @bounds an archive given as memory buffer of FS bytes (one instance per size: 9, 17, 25, 29, 41, 49, 53; 77 thorough), EVERY byte arbitrary - so every footer (any 32-bit frame count, any descriptor byte), every skippable-frame header, every table body of that size, well-formed or not; loader buffer shrunk to 32 bytes (regex on a scratch copy; the refill branch is reached from the 3rd/4th entry on)
+ * @bounds an archive given as memory buffer of FS bytes (one instance per size; quick: 17, 41, 53 and 53 with a 36-byte loader buffer; thorough adds 9, 25, 29, 49, 77, 89), EVERY byte arbitrary - so every footer (any 32-bit frame count, any descriptor byte), every skippable-frame header, every table body of that size, well-formed or not; loader buffer shrunk to 32 bytes (regex on a scratch copy; the refill branch is reached from the 3rd/4th entry on)
  * @bounds decided: memory safety of the loader on arbitrary bytes; by the time the loader allocates its table (= it has accepted the headers) the announced layout is consistent in 64-bit arithmetic: 17 + entrySize * numFrames == announced skippable size + 8 <= file size; on success, for an ARBITRARY frame index, the cumulative offsets and the checksum equal the little-endian fields of the file
  * @assume malloc is a harness allocator (macro inside the translation unit): requests up to 24 * 8 bytes get an exact-size object, larger requests FAIL (returning NULL is legal behaviour of malloc and the loader handles it), so tables of more than 7 frames are not traversed: the consistency obligation above is asserted AT the allocation request for every frame count
  * @outside traversal of tables with more than 7 entries; FILE-based access (same loader, fread/fseek instead of the buffer wrapper); the zstd decoder behind the reader (stub, not reached)
@@ -12,15 +12,15 @@
  * @mem loop
  * @cbmc --unwind 9 --unwindset __builtin_memcpy.0:38,__builtin_memmove.0:38,__builtin_memmove.1:38,harness.0:80,harness.1:10
  * @timeout 600
- * @memgb 16
+ * @memgb 6
  * @instance f9 tier=thorough -DFS=9
  * @instance f17 -DFS=17
  * @instance f25 tier=thorough -DFS=25
- * @instance f29 -DFS=29
+ * @instance f29 tier=thorough -DFS=29
  * @instance f41 -DFS=41
- * @instance f49 -DFS=49
+ * @instance f49 tier=thorough -DFS=49
  * @instance f53 -DFS=53
- * @instance g49 -DFS=49 -DLDBUF=36
+ * @instance g49 tier=thorough -DFS=49 -DLDBUF=36
  * @instance g53 -DFS=53 -DLDBUF=36
  * @instance f89 tier=thorough timeout=2400 memgb=14 -DFS=89
  * @instance f77 tier=thorough timeout=2400 memgb=14 -DFS=77
